@@ -3119,3 +3119,62 @@ def spec_requires_owner(fns, consts):
 
 SPECS["C03"].append(spec_requires_owner)
 SPECS["C10"].append(spec_requires_owner)
+
+
+SPECS["C10"].append(spec_range_sugar)   # a value inside the declared range must not be rejected (C10: rejections are justified)
+
+
+# ------------------------------------------------------------------ C12: the expanded `help` subtree keeps each subcommand's hidden flag
+
+def spec_help_subtree_copy(fns, consts):
+    """Command::_copy_subtree_for_help (the tree under the generated `help` subcommand after build()):
+    on every return path the copy carries `hide(self.is_hide_set())` - the original's own flag - and its
+    children are the copies of ALL of the original's subcommands (get_subcommands mapped through this
+    very function, no filter in between), so a hidden subcommand stays hidden at every level instead of
+    being dropped at one call site and copied as visible at the other."""
+    con = contracts.Contracts(fns, default_pure=True)
+    ctx = symex.Ctx(consts, con)
+    fn = _find(fns, "builder/command.rs", "_copy_subtree_for_help")
+    ex = symex.Exec(ctx, fn, [("opq", "self")]).run()
+    obs = []
+    for (pc, val), ca in zip(ex.returns, ex.return_callargs):
+        hides = [c for c in ca if c[0].endswith("Command::hide")]
+        ok1 = len(hides) == 1 and hides[0][1][-1] == "command::Command::is_hide_set(self)"
+        subs = [c for c in ca if re.search(r"Command::subcommands::<", c[0])]
+        ok2 = len(subs) == 1 and re.search(r"^<std::slice::Iter<'_, command::Command> as Iterator>::map::<.*\(command::Command::get_subcommands\(self\),fnitem:command::Command::_copy_subtree_for_help\)$", subs[0][1][-1]) is not None
+        ok3 = not any(re.search(r"as Iterator>::(filter|skip|take|filter_map)\b", c[0]) for c in ca)
+        for msg, ok in (("the copy carries the original's own hidden flag: hide(self.is_hide_set())", ok1),
+                        ("the copy's children are the copies of all of the original's subcommands", ok2 and ok3)):
+            obs.append({"fn": fn.name, "block": "ret", "kind": "spec", "target": "help_subtree_copy", "msg": msg, "pc": list(pc), "neg": "false" if ok else "true"})
+    if not ex.returns:
+        obs.append({"fn": fn.name, "block": "shape", "kind": "spec", "target": "help_subtree_copy", "msg": "_copy_subtree_for_help: no return path", "pc": [], "neg": "true"})
+    return ctx, obs, [_enc(fn, ex, len(ex.returns))], con
+
+
+SPECS["C12"].append(spec_help_subtree_copy)
+
+
+# ------------------------------------------------------------------ C06: the environment value is read as an OS string
+
+def spec_env_read(fns, consts):
+    """Arg::env: whenever a variable name is given, its value is read with std::env::var_os - any byte
+    sequence the OS holds, so 'set' means set - and never with std::env::var, for which a value that is
+    not UTF-8 looks like an unset variable (the default would then win and the source would lie)."""
+    con = contracts.Contracts(fns, default_pure=True)
+    ctx = symex.Ctx(consts, con)
+    fn = _find(fns, "builder/arg.rs", "env")
+    ex = symex.Exec(ctx, fn, [("opq", "self"), ("opq", "name")]).run()
+    obs, reads = [], 0
+    for (pc, val), ca in zip(ex.returns, ex.return_callargs):
+        rd = [c[0] for c in ca if re.search(r"(^|::)(var|var_os|vars|vars_os)::<|(^|::)(var|var_os)$", c[0])]
+        if not rd:
+            continue
+        reads += 1
+        ok = all(re.search(r"(^|::)var_os(::<|$)", r) for r in rd)
+        obs.append({"fn": fn.name, "block": "ret", "kind": "spec", "target": "env_read", "msg": "the variable is read as an OS string (env::var_os)" + ("" if ok else f" - found {rd}"), "pc": list(pc), "neg": "false" if ok else "true"})
+    if reads == 0:
+        obs.append({"fn": fn.name, "block": "shape", "kind": "spec", "target": "env_read", "msg": "Arg::env: no path reads the environment", "pc": [], "neg": "true"})
+    return ctx, obs, [_enc(fn, ex, len(ex.returns))], con
+
+
+SPECS["C06"].append(spec_env_read)
